@@ -128,6 +128,10 @@ def postprocess_attributes(
         exponents, coefficients_ = remove_redundant_coefficients(
             exponents, coefficients_
         )
+    elif not coefficients_ and (not retain_coefficients or not len(exponents)):
+        # without coefficients every term is zero: the zero polynomial, which
+        # is stored as a single constant term (also for the empty sum)
+        exponents = numpy.zeros((1, exponents.shape[1]), dtype=int)
 
     if isinstance(names, numpoly.ndpoly):
         names = names.names
